@@ -3,6 +3,7 @@
 One attribute of a conforming population is replaced by `$` (or left empty); the file is read in lenient (default) and
 strict (-s) mode by the real p21read + p21mon.  Oracle = the documented matrix (DESIGN.md C15).
 """
+LEVEL = 'fault_enumeration'
 import copy
 import random
 from .. import gen_p21, p21fam, ref_p21, run, probes
